@@ -120,6 +120,8 @@ def handleAbort (ts : Toks) : String :=
   let (_, real) := splitAt "#" ts
   -- the other thread's execute() started only after the first run had ended: two runs one after the other, nothing to judge
   if real == ["R:second-execute-was-sequential"] then reply true true "ok" else
+  -- a Test that cannot start (a plug placeholder never substituted): execute() raised, and left nothing behind
+  if real == ["R:start-failure-left-nothing-behind"] then reply true true "ok" else
   if real.contains "R:sigint-outside-the-wait" then reply true false "sigint-outside-the-wait" else
   let fails : List String :=
     (if real.any (·.startsWith "R:") then (real.filter (·.startsWith "R:")).map (fun t => (t.drop 2).toString) else []) ++
